@@ -9,13 +9,13 @@ MODEL_NAME = "Dom/Keyed.v"
 HARNESS = "dom"
 HARNESS_ARGS = ["c11"]
 ALLOWED_AXIOMS = []
-READY = False
+READY = True
 RUN_IMPORT = "Dom.KeyedRun"
 
 RULE = ("case = (m npre npost (l0 l1 .. ln)): a real tachys keyed(..) view whose items own m in {1,2,3} DOM nodes is "
         "built from l0, mounted between npre/npost text siblings of one parent, then rebuilt with l1..ln. Every run "
         "contains ALL canonical duplicate-free pairs (from = [0..n), to over old keys and canonically named fresh keys, "
-        "both of length <= 5, at most 6 keys in total; 6 / 7 in the thorough tier), each in two sibling/m variants, plus "
+        "both of length <= 6, at most 7 keys in total; 7 / 8 in the thorough tier), each in two sibling/m variants, plus "
         "randomly relabelled pairs, random pairs of length <= 12 over 16 keys and histories of 3-8 successive updates "
         "(all from the PRNG seeded by VERIF_SEED). Non-trivial = at least one update changes the key sequence; "
         "distinct = distinct case hash.")
@@ -101,7 +101,7 @@ def mutate(rng, l, nkeys):
 
 
 def generate(rng, tier):
-    maxlen, maxkeys = (5, 6) if tier == "quick" else (6, 7)
+    maxlen, maxkeys = (6, 7) if tier == "quick" else (7, 8)
     variants = [(1, 0, 0), (2, 1, 1), (1, 0, 2), (2, 2, 0), (3, 1, 1), (1, 1, 0)]
     n = 0
     for n_from in range(maxlen + 1):
@@ -110,7 +110,7 @@ def generate(rng, tier):
             n += 1
             for v in (variants[n % 2], variants[2 + n % 4]) if tier == "quick" else (variants[n % 6],):
                 yield dict(case=C.norm([v[0], v[1], v[2], [frm, to]]), kind="canonical-pair")
-    n_rand = 4000 if tier == "quick" else 40000
+    n_rand = 6000 if tier == "quick" else 60000
     for i in range(n_rand):
         r = rng.random()
         m, npre, npost = rng.choice(variants + [(1, 0, 1), (2, 0, 1), (3, 0, 0), (2, 3, 3)])
